@@ -409,6 +409,8 @@ def run_cases(ctx, cases, exes, drv, flavours):
     ref = outs[flavours[0]]
     disagree = 0
     rejected = 0
+    dist = {"sus": {}, "pf_tj": {}, "scanmode": {}, "restart": {}, "ecs_with_stuffing": 0, "ecs_with_rst": 0,
+            "ecs_compared": 0, "buffers_compared": 0, "first_row_cases": 0, "later_row_cases": 0, "category16_inj": 0}
     for i, case in enumerate(cases):
         line, target, kind, meta = case
         impl = ref[i]
@@ -423,6 +425,27 @@ def run_cases(ctx, cases, exes, drv, flavours):
                               signature="build-disagree:" + kind)
         if impl == "rej":
             rejected += 1
+        # distribution over the case splits of the model (both sides of each `if`)
+        if kind in ("api-tj", "api-lj"):
+            hdr = line.split("|")[0].split()
+            if len(hdr) >= 16:
+                dist["sus"][hdr[14]] = dist["sus"].get(hdr[14], 0) + 1
+                dist["restart"][hdr[7]] = dist["restart"].get(hdr[7], 0) + 1
+                if kind == "api-tj":
+                    dist["pf_tj"][hdr[9]] = dist["pf_tj"].get(hdr[9], 0) + 1
+                else:
+                    dist["scanmode"][hdr[12]] = dist["scanmode"].get(hdr[12], 0) + 1
+            if "; ecs" in impl:
+                e = impl.split("; ecs")[1].split(";")[0]
+                dist["ecs_compared"] += 1
+                dist["ecs_with_stuffing"] += 1 if " 255 0" in e else 0
+                dist["ecs_with_rst"] += 1 if " 255 20" in e or " 255 21" in e else 0
+            if "; buf " in impl and not impl.rstrip().endswith("buf -"):
+                dist["buffers_compared"] += 1
+        elif kind == "row":
+            dist["first_row_cases" if line.split()[4] == "1" else "later_row_cases"] += 1
+        elif kind == "inj":
+            dist["category16_inj"] += sum(1 for pl in meta["planes"] for d in pl if (d & 0xFFFF) == 32768)
         if mlines is not None and mlines[i] != impl:
             disagree += 1
             if disagree <= 3:
@@ -437,6 +460,7 @@ def run_cases(ctx, cases, exes, drv, flavours):
         ctx.cov["traces_validated_against_impl"] = len(cases)
     ctx.cov["model_impl_disagreements"] = disagree
     ctx.cov["compressor_refusals"] = rejected
+    ctx.cov["distribution"] = dist
     ctx.cov["rule"] = ("API round trips (TurboJPEG 8/12/16 and libjpeg scanline API; precision 2..16 x PSV 1..7 grid, Pt, 1-4 components, "
                        "12 pixel formats, bottom-up, pitch padding, restart rows/blocks, scan scripts, buffered-image decoding; "
                        "0/max alternation, checkerboard, noise, gradient, constant, extreme-value content) with observed difference arrays; "
